@@ -15,7 +15,7 @@ sys.path.insert(0, str(Path(__file__).resolve().parent))
 from framework import (Ctx, Disagreement, Driver, SuiteResult, Violation, corpus_cases,
                        setup_repo_path)
 
-PROTO_LABELS_TOTAL = 61   # action constructors of Pamiq.Proto: 14 background + 32 control/worker + 3 callback actions x 5 kinds
+PROTO_LABELS_TOTAL = 62   # action constructors of Pamiq.Proto: 14 background + 33 control/worker + 3 callback actions x 5 kinds
 
 
 def _one(args):
@@ -161,7 +161,7 @@ def suite_fakes(ctx: Ctx) -> SuiteResult:
     """The deterministic scheduler's fake Event / Lock / Thread / ThreadPoolExecutor against the real ones."""
     import fakecheck
     res = SuiteResult("fake-primitives-vs-real-threading",
-                      rule="8 small multi-thread programs around the semantics the handshake relies on (notified "
+                      rule="9 small multi-thread programs around the semantics the handshake relies on (notified "
                            "waiter returns True after clear, wait on a set flag, clear/set races, lock hand-over, "
                            "try-lock, exception in a Thread, Future.result re-raising, executor exit joining): "
                            "every schedule of the fakes enumerated (S_fake), real threads with random real delays "
@@ -213,8 +213,9 @@ PROTO_ASSUMPTIONS = [
     "between two primitive operations (Event/lock operation, callback boundary) a thread touches no "
     "shared protocol state; CPython threading.Event / Lock / ThreadPoolExecutor semantics are "
     "reproduced by the fakes in harness/detsched.py",
-    "an asynchronous KeyboardInterrupt is delivered only inside the control loop, not inside the "
-    "`finally` clean-up of launch()/Thread.run (DESIGN §7.2, partial)",
+    "an asynchronous KeyboardInterrupt is delivered inside the control loop and in the start-up section of "
+    "launch() (at each of the three thread starts), not inside the `finally` clean-up of "
+    "launch()/Thread.run (DESIGN §7.2, partial)",
     "durations are covered by nondeterministic time-outs (untimed mode) plus a discrete-event timed "
     "mode; real-time bounds rest on Event.wait's contract",
 ]
